@@ -276,8 +276,15 @@ def run_history(ctx, case):
                         if st.get("nested_at_statement"):
                             # a SIGWINCH handler can run between any two statements: here at the k-th
                             # statement of the bookkeeping that follows the terminal's reply
-                            line_hook = LineHook(type(w)._get_cursor_vertical_diff_once, st["nested_at_statement"], hook)
-                            line_hook.install()
+                            once = getattr(type(w), "_get_cursor_vertical_diff_once", None)
+                            if once is None:
+                                # this tree organises the bookkeeping differently: the nested call
+                                # arrives during a read instead (the variant above)
+                                ctx.count("nested_at_statement_not_applicable")
+                                inp.hook = hook
+                            else:
+                                line_hook = LineHook(once, st["nested_at_statement"], hook)
+                                line_hook.install()
                         else:
                             inp.hook = hook
                     if st.get("failed_first") and not nested and st["d3"] < .4:
